@@ -27,6 +27,35 @@ def name_table_line(case, kind, src, dst, d):
     return ("textrtn %d %d %d %d %d %s" % (kind, src, dst, d, len(codes), " ".join(tab))).rstrip()
 
 
+def file_only_cases(rng):
+    """graphs whose string node ids contain characters that str.splitlines() / a default str.split() would cut at
+    (U+2028, U+0085, FS/GS/RS, CR, VT, FF): with an explicit delimiter they are ordinary characters of a field"""
+    for d in (0, 1):
+        for j in range(6):
+            ops = gen.random_history(rng, n_ops=rng.choice([3, 5, 8]), n_nodes=rng.choice([3, 5, 8]), p_reject=0.0, p_none=0.0, p_empty=0.0,
+                                     p_bulk=0.0, p_node=0.0, p_clear=0.0)
+            c = hist_case(d, True, ops, ids="sepstr", src="corpus-separators")
+            c["fileonly"] = True
+            yield c
+
+
+def file_only_judge(pid, case, directed, outs):
+    presG, frt, pres2, dump2 = outs
+    if oracles.is_err(presG):
+        return []
+    if not isinstance(frt, dict) or oracles.is_err(pres2):
+        return [F(pid + ".raised", where="file (ids with separator-like characters)", io=case["io"], got=[frt if not isinstance(frt, dict) else None, pres2 if oracles.is_err(pres2) else None])]
+    P, Q = pres_keys(directed, presG), pres_keys(directed, pres2)
+    if pid == "C10":
+        # the unclosed two-instant run (D5) loses its second instant on any round trip
+        return [] if all(Q.get(k, set()) <= P.get(k, set()) for k in Q) and set(Q) == set(P) else [F(pid + ".roundtrip_presence", where="file (separator ids)", io=case["io"])]
+    if P != Q:
+        bad = sorted(k for k in set(P) | set(Q) if P.get(k) != Q.get(k))[:3]
+        return [F(pid + ".roundtrip", where="file (ids with separator-like characters)", io=case["io"],
+                  pairs=[[list(k), sorted(P.get(k, [])), sorted(Q.get(k, []))] for k in bad])]
+    return []
+
+
 def pres_keys(directed, pres):
     P = {}
     for (u, v), (_, ts) in pres_map(pres).items():
@@ -47,8 +76,10 @@ class C09:
         long_cases = [hist_case(d, True, [["add", 1, 2, 0, 1100 + 37 * d], ["add", 2, 3, 5, None], ["add", 2, 1, 1200, 1230]], src="corpus-long") for d in (0, 1)]
         long_cases.append(hist_case(1, True, [["add", 1, 2, 0, 9100], ["add", 2, 1, 40, 45]], src="corpus-long"))
         import itertools as _it
-        for c in _it.chain(long_cases, io_histories(tier, rng, n)):
+        for c in _it.chain(long_cases, file_only_cases(rng), io_histories(tier, rng, n)):
             c["io"] = [k % 4, (k // 4) % 4, (k // 16) % 2]   # target, delimiter, encoding: all 32 combinations cycle
+            if c.get("fileonly"):
+                c["io"] = [k % 4, 1 + k % 3, 0]             # explicit non-blank delimiter, utf-8
             k += 1
             # a four-column file: the same spans written as rows u v t e
             rows = []
@@ -63,6 +94,9 @@ class C09:
         L = [gen.header(0, case["cls"], 1)]
         lo, hi = gen.window(case["ops"], 2)
         L += [gen.op_line(0, op) for op in case["ops"]]
+        if case.get("fileonly"):
+            t, d, e = case["io"]
+            return L + ["pres 0 %d %d" % (lo, hi), "filert 0 0 2 %d %d %d" % (t, d, e), "pres 2 %d %d" % (lo, hi), "dump 2"]
         L += ["pres 0 %d %d" % (lo, hi), "wsnap 0", "snaprt 0 1", "pres 1 %d %d" % (lo, hi)]
         t, d, e = case["io"]
         L += ["filert 0 0 2 %d %d %d" % (t, d, e), "pres 2 %d %d" % (lo, hi), "dump 2"]
@@ -84,6 +118,8 @@ class C09:
             return []
         directed = bool(case["cls"])
         i = 1 + n
+        if case.get("fileonly"):
+            return file_only_judge("C09", case, directed, outs[i:i + 4])
         presG, rows, rt, pres1, frt, pres2, dump2, r4, pres3 = outs[i:i + 9]
         fails = []
         P = pres_keys(directed, presG)
@@ -172,8 +208,10 @@ class C10:
         long_cases = [hist_case(d, True, [["add", prs[k % 3][0], prs[k % 3][1], 4 * (k // 3), 4 * (k // 3) + 2 + (k % 2)] for k in range(m)], src="corpus-long")
                       for d, m in ((0, 620), (1, 2200))]
         import itertools as _it
-        for c in _it.chain(long_cases, io_histories(tier, rng, n)):
+        for c in _it.chain(long_cases, file_only_cases(rng), io_histories(tier, rng, n)):
             c["io"] = [k % 4, (k // 4) % 4, (k // 16) % 2]
+            if c.get("fileonly"):
+                c["io"] = [k % 4, 1 + k % 3, 0]
             c["log"] = random_log(rng, bool(c["cls"]))
             k += 1
             yield c
@@ -183,6 +221,9 @@ class C10:
         L = [gen.header(0, case["cls"], 1)]
         lo, hi = gen.window(case["ops"], 3)
         L += [gen.op_line(0, op) for op in case["ops"]]
+        if case.get("fileonly"):
+            t, d, e = case["io"]
+            return L + ["pres 0 %d %d" % (lo, hi), "filert 1 0 2 %d %d %d" % (t, d, e), "pres 2 %d %d" % (lo, hi), "dump 2"]
         L += ["pres 0 %d %d" % (lo, hi), "dump 0", "wint 0", "intrt 0 1", "pres 1 %d %d" % (lo, hi), "dump 1"]
         t, d, e = case["io"]
         L += ["filert 1 0 2 %d %d %d" % (t, d, e), "pres 2 %d %d" % (lo, hi), "dump 2"]
@@ -203,6 +244,8 @@ class C10:
             return []
         directed = bool(case["cls"])
         i = 1 + n
+        if case.get("fileonly"):
+            return file_only_judge("C10", case, directed, outs[i:i + 4])
         presG, dumpG, w, rt, pres1, dump1, frt, pres2, dump2, rl, pres3, dump3 = outs[i:i + 12]
         fails = []
         if oracles.is_err(w):
